@@ -595,7 +595,18 @@ impl<'a> Sim<'a> {
             }
             // local refusals
             if let OpRes::Err(ErrSum::QuotaExceeded) = res {
-                continue; // judged in start()
+                // a refusal is judged in start(); but a refusal is only a refusal while nothing
+                // of the request is on the wire
+                if self.tr.on_wire(i) {
+                    let k = kind_name(m.kind);
+                    self.fail("C10/refused-but-written", format!("{k} {i} failed with QuotaExceeded although its PUBLISH is on the wire (acknowledgements fed so far: {})", m.acks.len()));
+                    self.fail(
+                        format!("C06/quota-refusal-after-publish-written/{k}"),
+                        format!("{k} {i}: its PUBLISH was written, {} acknowledgement(s) were fed, and publish() reports the local refusal QuotaExceeded instead of the outcome of the handshake", m.acks.len()),
+                    );
+                    self.fail(format!("C05/wrong-completion/{k}"), format!("{k} {i} is on the wire and completed with QuotaExceeded"));
+                }
+                continue;
             }
             if m.size_unclear && res == OpRes::Err(ErrSum::MaximumPacketSizeExceeded) {
                 // inside the subscription-identifier band: a refusal is as good as sending
@@ -606,7 +617,12 @@ impl<'a> Sim<'a> {
             }
             match m.kind {
                 OpKind::Pub0 => {
-                    if res != OpRes::Ok {
+                    if m.expect_refused == Some("MaximumPacketSizeExceeded") {
+                        // longer than the server's Maximum Packet Size: refused, nothing written
+                        if res != OpRes::Err(ErrSum::MaximumPacketSizeExceeded) || self.tr.on_wire(i) {
+                            self.fail("C12/oversized-not-refused/pub0", format!("QoS 0 publish {i} exceeds the Maximum Packet Size: result {res:?}, on wire: {}", self.tr.on_wire(i)));
+                        }
+                    } else if res != OpRes::Ok {
                         self.fail("C06/qos0-not-ok", format!("QoS 0 publish {i} returned {res:?}"));
                     } else {
                         // "completes once written": at the moment the future completed, the whole
